@@ -1,5 +1,5 @@
 (** Props/C03.v — call returns to its caller, jump does not, switch takes the first true case. *)
-From PV Require Import Engine EngineProofs.
+From PV Require Import Engine EngineProofs Ctl Control CtlProofs.
 Open Scope string_scope.
 Notation RG := (list val -> option string -> option string -> st -> R).
 Notation RP := (string -> option (list string) -> option (list val) -> option string -> option string -> st -> R).
@@ -84,6 +84,14 @@ Theorem C03_switch_default : forall s c idx d,
   switch_select s [VDict c] idx idx = Ok (Some d).
 Proof. exact switch_select_default. Qed.
 Print Assumptions C03_switch_default.
+
+(** * Tie B: the call layer read from the source ([Step.invoke_step], pypyr/dsl.py): the caller's
+    counters and call config are restored in a [finally], i.e. on every way out of the called
+    groups — normal completion, error, instruction — before the outcome is passed on. *)
+Theorem C03_source_invoke_is_model : forall (rg : RG) (rp : RP) sp k s,
+  gen_invoke_step (run_body rp sp) rg (reset_prim sp k) s = invoke rg rp sp k s.
+Proof. exact gen_invoke_step_is_model. Qed.
+Print Assumptions C03_source_invoke_is_model.
 
 (** * Non-vacuity: caller under foreach + while; callee loops and wipes the counters *)
 Definition P (tag : string) (fe : option val) (inn : dict) (b : body) (nm : string) : step :=
